@@ -67,6 +67,7 @@ type c12Case struct {
 	Site string `json:"site,omitempty"`
 	Perm []int  `json:"iteration_order,omitempty"`
 	Lazy int    `json:"lazy_mask,omitempty"` // processors: bit i = participant i is LazyInit
+	Late bool   `json:"order_known_after_init,omitempty"` // runners: Order() answers 0 until the runner's Init ran
 }
 
 func seqs(maxLen, nsym int, yield func([]int) bool) {
@@ -179,6 +180,16 @@ func c12RunSite(cs c12Case) (names []string, shared *scen.RT, o *scen.StartObs) 
 		p := mk(i, s)
 		switch cs.Site {
 		case "runners":
+			switch {
+			case cs.Late && c12Class(s) == 0:
+				x := &scen.RunPI{Part: p}
+				comps, parts = append(comps, x), append(parts, &x.Part)
+				continue
+			case cs.Late:
+				x := &scen.RunOI{Part: p}
+				comps, parts = append(comps, x), append(parts, &x.Part)
+				continue
+			}
 			switch c12Class(s) {
 			case 0:
 				x := &scen.RunP{Part: p}
@@ -287,6 +298,22 @@ func c12Sites(c *core.Ctx) {
 						return false
 					}
 				}
+				if site == "runners" && n <= 3 {
+					late := true
+					for _, x := range s {
+						late = late && c12Class(x) != 2
+					}
+					for _, k := range []int{0, factorialInt(n) - 1} {
+						if late {
+							if ok = yield(c12Case{Seq: s, Site: site, Perm: scen.NthPerm(n, k), Late: true}); !ok {
+								return false
+							}
+						}
+						if n == 1 {
+							break
+						}
+					}
+				}
 				if site == "processors" && n <= 3 {
 					// every mix of LazyInit and ordinary processors, identity and reversed iteration order
 					for m := 1; m < 1<<n; m++ {
@@ -320,7 +347,7 @@ func c12Sites(c *core.Ctx) {
 		for _, s := range cs.Seq {
 			symn = append(symn, c12Sym(s))
 		}
-		key := "C12/" + cs.Site + "/" + core.Hash(cs.Seq, cs.Perm, cs.Lazy)
+		key := "C12/" + cs.Site + "/" + core.Hash(cs.Seq, cs.Perm, cs.Lazy, cs.Late)
 		if !o.OK() {
 			c.Outcome(cs.Site + "/start-failed")
 			c.Report(key, "start-failed", fmt.Sprintf("%s %v: start-up did not succeed: %v %s %s", cs.Site, symn, scen.FirstLine(o.Err), o.Panic, o.Abort), cs)
